@@ -5,7 +5,7 @@ from .. import families
 
 def run(tier):
     return famcheck.run(
-        "C15", tier, [("c15", families.c15(tier))],
+        "C15", tier, [("c15", families.c15(tier)), ("mixed", families.mixed(tier, 1500 if tier == "thorough" else 80, salt=15, stmt_expr=False))],
         "64 statements using constructs of the full C grammar (break, continue, goto, labels, return, comma expressions, while, "
         "do-while, switch/case/default, unknown functions with and without arguments, pointer/array/member access, prefix ++/--, "
         "for clauses without condition or with commas, multiple declarators, arrays, typedef, compound literals, strings, floats, "
